@@ -6,7 +6,7 @@
    denC gives sqrt/log their principal complex branches; wdC is well-definedness (no 1/0,
    no log 0, relational operands real).  s, m1, m2, m are real; envS/envE bind the symbols. *)
 From AV Require Import DenC.
-From AVchk Require Import Gen_C11 Gen_C11py C11_lemmas C11_glue C11_pycode.
+From AVchk Require Import Gen_C11 Gen_C11py Gen_C11kw C11_lemmas C11_glue C11_pycode C11_keyword.
 From Coq Require Import Lra.
 Open Scope C_scope.
 
@@ -122,6 +122,14 @@ Theorem C11_pycode_complex_is_i_abs_equal_mass_tree : forall s m : R,
   denC (envE s m) gen_py_cpx_mm = Ci * denC (envE s m) gen_py_abs_mm.
 Proof. exact py_cpx_is_i_abs_mm. Qed.
 
+(* ---- 8. keyword constructions: X(m1=.., m2=.., s=..), X(name=.., m1=.., s=.., m2=..), X(s, m2=.., m1=..)
+        ... (every order, with/without name=, all six classes; list regenerated from /repo) unfold to
+        the very trees gen_q2 ... gen_eqm the theorems above are about ---- *)
+Theorem C11_keyword_construction :
+  Forall (fun p => snd (fst p) = snd p /\ In (snd p) [gen_q2; gen_psf; gen_abs; gen_cpx; gen_swave; gen_eqm]) gen_kw
+  /\ (6 * 30 <= length gen_kw)%nat.
+Proof. exact keyword_construction. Qed.
+
 (* ---- 6. the premises are satisfiable ---- *)
 Example C11_premise_above : (0 < 3/10 /\ 0 < 1/2 /\ (3/10 + 1/2) ^ 2 < 2)%R.
 Proof. lra. Qed.
@@ -160,3 +168,4 @@ Print Assumptions C11_pycode_complexsqrt_difference.
 Print Assumptions C11_pycode_complexsqrt_product.
 Print Assumptions C11_pycode_complex_is_i_abs.
 Print Assumptions C11_pycode_complex_is_i_abs_equal_mass_tree.
+Print Assumptions C11_keyword_construction.
